@@ -22,6 +22,8 @@ package main
 //               []chainhash.Hash ↦ List H; int32 / uint32 / time.Time / *big.Int ↦ Nat; bool; error ↦ Option Err;
 //               HeaderState ↦ St; result lists ↦ tuples. Pointers other than *BlockHeader are only created by `&local`
 //               in this code and are treated as the value.
+// The translator core below (kinds, scopes, expressions, statements, call graph) is shared with gen_headersvc.go, which
+// plugs in a csProfile (further types, primitives and statement forms — listed in its header; they are off for this module).
 // Primitive table (trusted mapping, see RepoM.lean)
 //   cs.[Repositories.]Headers.{GetHeaderByHash, GetHeaderByHeight, GetTip, GetStaleChainHeadersBackFrom,
 //   GetLongestChainHeadersFromHeight, UpdateState, AddHeaderToDatabase} ↦ the RepoM primitives;
@@ -92,14 +94,18 @@ type csFunc struct {
 }
 
 type csGen struct {
-	fset   *token.FileSet
-	src    map[string][]byte
-	funcs  map[string]*csFunc // "<recvType>.<name>" / ".<name>", per package prefix "service:" "domains:"
-	codes  map[string]bool    // AddBlockErrorCode constants
-	order  []*csFunc
-	err    error
-	stPkg  string // package of the function being translated
-	recvCS string // name of the *chainService receiver ("" outside its methods)
+	fset     *token.FileSet
+	src      map[string][]byte
+	funcs    map[string]*csFunc // "<recvType>.<name>" / ".<name>", per package prefix "service:" "domains:"
+	codes    map[string]bool    // AddBlockErrorCode constants
+	order    []*csFunc
+	err      error
+	stPkg    string // package of the function being translated
+	recvCS   string // name of the *chainService receiver ("" outside its methods)
+	prof     *csProfile
+	recvName string          // name of the receiver variable of the function being translated
+	loops    int             // nesting depth of `for` loops (break / continue)
+	dropped  map[string]bool // parameters of a dropped kind
 	// per function
 	scopes   []map[string]string // Go name -> Lean name
 	kinds    map[string]ckind    // Lean name -> kind
@@ -109,6 +115,23 @@ type csGen struct {
 	copied   map[string]bool // Go names copied into another variable
 	results  []ckind
 	out      []string
+}
+
+// csProfile: what a sibling translator (gen_headersvc.go) adds to the core. Every hook is consulted BEFORE the
+// built-in rules; a nil hook is skipped. The ChainSvc module uses the core without a profile.
+type csProfile struct {
+	monad     string                                                    // Lean monad of the generated definitions
+	dropRecv  map[string]bool                                           // receiver types that do not become a parameter
+	goKind    func(g *csGen, e ast.Expr) (ckind, bool)                  // Go type ↦ kind
+	field     func(g *csGen, k ckind, name string) (csField, bool)      // field of a struct kind
+	sel       func(g *csGen, x *ast.SelectorExpr) (csVal, bool)         // qualified constants, receiver fields
+	call      func(g *csGen, c *ast.CallExpr, want ckind) (csVal, bool) // primitive table, wiring of the interfaces
+	assign    func(g *csGen, x *ast.AssignStmt, ind int) bool           // statements with a meaning of their own
+	exprStmt  func(g *csGen, s ast.Stmt, c *ast.CallExpr, ind int) bool // skip list
+	composite func(g *csGen, cl *ast.CompositeLit) (csVal, bool)        // composite literals of further structs
+	zero      map[ckind]string                                          // Go zero values for `var x T`
+	ident     func(g *csGen, name string) (csVal, bool)                 // package-level constants
+	paramKind func(name string, k ckind) ckind                          // kind of a parameter, given its name
 }
 
 type csVal struct {
@@ -134,6 +157,11 @@ func (g *csGen) goText(n ast.Node) string {
 
 // goKind maps a Go type expression to a kind
 func (g *csGen) goKind(e ast.Expr) (ckind, bool) {
+	if g.prof != nil && g.prof.goKind != nil {
+		if k, ok := g.prof.goKind(g, e); ok {
+			return k, true
+		}
+	}
 	switch x := e.(type) {
 	case *ast.Ident:
 		switch x.Name {
@@ -229,6 +257,20 @@ func (g *csGen) emit(ind int, s string) { g.out = append(g.out, strings.Repeat("
 
 func one(s string, k ckind) csVal { return csVal{s: s, k: []ckind{k}} }
 
+// list kinds and their element kinds; nil of a pointer / error / slice kind
+var csElem = map[ckind]ckind{"chain": "hdrp", "hashes": "hash", "srcs": "srcp"}
+var csNil = map[ckind]string{"hdrp": "none", "err": "none", "srcp": "none"}
+
+// integer kinds rendered as Lean Int ("nat" is Lean Nat); u8 / u32 wrap around, int does not (assumption: no overflow)
+var csIntKinds = map[ckind]int{"int": 0, "u8": 8, "u32": 32}
+
+func csWrap(k ckind, s string) string {
+	if b := csIntKinds[k]; b > 0 {
+		return fmt.Sprintf("(wrapU %d %s)", b, s)
+	}
+	return s
+}
+
 // val translates an expression of exactly one value; a monadic action is bound in place with (← …)
 func (g *csGen) val(e ast.Expr, want ckind) (string, ckind) {
 	v := g.expr(e, want)
@@ -250,21 +292,30 @@ func (g *csGen) expr(e ast.Expr, want ckind) csVal {
 		if x.Kind == token.INT {
 			if _, err := strconv.ParseUint(x.Value, 10, 63); err == nil {
 				k := want
-				if k != "nat" && k != "int" && k != "big" {
+				_, isInt := csIntKinds[k]
+				if k != "nat" && k != "big" && !isInt {
 					k = "nat"
 				}
-				if k == "int" {
+				if isInt {
 					return one("("+x.Value+" : Int)", k)
 				}
 				return one(x.Value, k)
+			}
+		}
+		if x.Kind == token.STRING && g.prof != nil {
+			if v, err := strconv.Unquote(x.Value); err == nil {
+				return one(strconv.Quote(v), "str")
 			}
 		}
 		g.fail(e, "literal %s", x.Value)
 	case *ast.Ident:
 		switch x.Name {
 		case "nil":
-			if want == "hdrp" || want == "err" {
-				return one("none", want)
+			if n, ok := csNil[want]; ok {
+				return one(n, want)
+			}
+			if _, ok := csElem[want]; ok && g.prof != nil { // a nil slice: length 0, ranges over nothing
+				return one("[]", want)
 			}
 			g.fail(e, "nil of kind %q", want)
 			return one("none", want)
@@ -276,6 +327,11 @@ func (g *csGen) expr(e ast.Expr, want ckind) csVal {
 		}
 		if s, ok := csStates[x.Name]; ok && g.stPkg == "domains" {
 			return one(s, "state")
+		}
+		if g.prof != nil && g.prof.ident != nil {
+			if v, ok := g.prof.ident(g, x.Name); ok {
+				return v
+			}
 		}
 		g.fail(e, "identifier %s", x.Name)
 	case *ast.SelectorExpr:
@@ -297,13 +353,31 @@ func (g *csGen) expr(e ast.Expr, want ckind) csVal {
 				g.fail(e, "! on kind %q", k)
 			}
 			return one("(!"+s+")", "bool")
+		case token.SUB:
+			s, k := g.val(x.X, "int")
+			if _, ok := csIntKinds[k]; !ok {
+				g.fail(e, "unary - on kind %q", k)
+			}
+			return one(csWrap(k, "(- "+s+")"), k)
 		case token.AND:
 			if cl, ok := x.X.(*ast.CompositeLit); ok {
-				return one("(some "+g.composite(cl)+")", "hdrp")
+				v := g.compositeVal(cl)
+				switch v.k[0] {
+				case "hdr":
+					return one("(some "+v.s+")", "hdrp")
+				case "srcv":
+					return one("(some "+v.s+")", "srcp")
+				case "hash":
+					return one(v.s, "hash")
+				}
+				g.fail(e, "address of a composite literal of kind %q", v.k[0])
+				return one("none", "hdrp")
 			}
 			if _, ok := x.X.(*ast.Ident); !ok {
 				if _, ok := x.X.(*ast.SelectorExpr); !ok {
-					g.fail(e, "address of a non-variable")
+					if _, ok := x.X.(*ast.IndexExpr); !ok || g.prof == nil {
+						g.fail(e, "address of a non-variable")
+					}
 				}
 			}
 			s, k := g.val(x.X, "")
@@ -312,6 +386,8 @@ func (g *csGen) expr(e ast.Expr, want ckind) csVal {
 				return one("(some "+s+")", "hdrp")
 			case "hash", "src", "chain":
 				return one(s, k)
+			case "scan", "rowv": // `var x T` filled through its address, an element of a slice of structs: the pointer is the value
+				return one(s, "hdrp")
 			}
 			g.fail(e, "address of kind %q", k)
 		default:
@@ -324,23 +400,52 @@ func (g *csGen) expr(e ast.Expr, want ckind) csVal {
 	case *ast.IndexExpr:
 		s, k := g.val(x.X, "")
 		i, ik := g.val(x.Index, "nat")
-		if ik != "nat" || (k != "chain" && k != "hashes") {
+		ek, ok := csElem[k]
+		if ik != "nat" || !ok {
 			g.fail(e, "index of kind %q by %q", k, ik)
-		}
-		ek := ckind("hdrp")
-		if k == "hashes" {
-			ek = "hash"
 		}
 		return one("(← index "+s+" "+i+")", ek)
 	case *ast.CompositeLit:
-		return one(g.composite(x), "hdr")
+		return g.compositeVal(x)
 	default:
 		g.fail(e, "expression %T", e)
 	}
 	return one("default", want)
 }
 
+func (g *csGen) fieldOf(k ckind, name string) (csField, bool) {
+	if g.prof != nil && g.prof.field != nil {
+		if f, ok := g.prof.field(g, k, name); ok {
+			return f, true
+		}
+	}
+	switch k {
+	case "hdrp", "hdr":
+		f, ok := csHdrFields[name]
+		return f, ok
+	case "src":
+		f, ok := csSrcFields[name]
+		return f, ok
+	}
+	return csField{}, false
+}
+
+// compositeVal: a composite literal, as a value of its kind
+func (g *csGen) compositeVal(cl *ast.CompositeLit) csVal {
+	if g.prof != nil && g.prof.composite != nil {
+		if v, ok := g.prof.composite(g, cl); ok {
+			return v
+		}
+	}
+	return one(g.composite(cl), "hdr")
+}
+
 func (g *csGen) selector(x *ast.SelectorExpr) csVal {
+	if g.prof != nil && g.prof.sel != nil {
+		if v, ok := g.prof.sel(g, x); ok {
+			return v
+		}
+	}
 	t := selText(x)
 	if g.recvCS != "" && t == g.recvCS+".chainParams.HeadersToIgnore" {
 		return one("cfg.forbidden", "hashes")
@@ -355,20 +460,16 @@ func (g *csGen) selector(x *ast.SelectorExpr) csVal {
 		}
 	}
 	s, k := g.val(x.X, "")
-	var f csField
-	var ok bool
-	switch k {
-	case "hdrp":
-		f, ok = csHdrFields[x.Sel.Name]
-		s = "(← deref " + s + ")"
-	case "hdr":
-		f, ok = csHdrFields[x.Sel.Name]
-	case "src":
-		f, ok = csSrcFields[x.Sel.Name]
-	}
+	f, ok := g.fieldOf(k, x.Sel.Name)
 	if !ok {
 		g.fail(x, "field %s of kind %q", x.Sel.Name, k)
 		return one("default", "nat")
+	}
+	if k == "hdrp" || k == "srcp" {
+		s = "(← deref " + s + ")"
+	}
+	if strings.Contains(f.lean, "%s") {
+		return one(fmt.Sprintf(f.lean, s), f.k)
 	}
 	return one(s+"."+f.lean, f.k)
 }
@@ -422,6 +523,43 @@ var csCmp = map[token.Token]string{token.LSS: "<", token.LEQ: "≤", token.GTR: 
 
 func isNil(e ast.Expr) bool { id, ok := e.(*ast.Ident); return ok && id.Name == "nil" }
 
+// isFreshAddr: `&T{…}` (possibly parenthesised)
+func isFreshAddr(e ast.Expr) bool {
+	for {
+		p, ok := e.(*ast.ParenExpr)
+		if !ok {
+			break
+		}
+		e = p.X
+	}
+	u, ok := e.(*ast.UnaryExpr)
+	if !ok || u.Op != token.AND {
+		return false
+	}
+	_, ok = u.X.(*ast.CompositeLit)
+	return ok
+}
+
+// pureExpr: an expression whose evaluation cannot fault or have an effect (identifiers, literals, len, conversions, + - *)
+func pureExpr(e ast.Expr) bool {
+	switch x := e.(type) {
+	case *ast.Ident, *ast.BasicLit:
+		return true
+	case *ast.ParenExpr:
+		return pureExpr(x.X)
+	case *ast.BinaryExpr:
+		return (x.Op == token.ADD || x.Op == token.SUB || x.Op == token.MUL) && pureExpr(x.X) && pureExpr(x.Y)
+	case *ast.CallExpr:
+		if id, ok := x.Fun.(*ast.Ident); ok && len(x.Args) == 1 {
+			switch id.Name {
+			case "len", "int", "int32", "uint8", "uint32":
+				return pureExpr(x.Args[0])
+			}
+		}
+	}
+	return false
+}
+
 func (g *csGen) binary(x *ast.BinaryExpr) csVal {
 	switch x.Op {
 	case token.LAND, token.LOR:
@@ -443,6 +581,16 @@ func (g *csGen) binary(x *ast.BinaryExpr) csVal {
 		}
 		return one("("+l+" "+op+" "+r+")", "bool")
 	case token.EQL, token.NEQ:
+		if isFreshAddr(x.X) || isFreshAddr(x.Y) { // the address of a fresh composite literal equals no other pointer
+			o := x.X
+			if isFreshAddr(x.X) {
+				o = x.Y
+			}
+			if _, k := g.val(o, ""); k != "hdrp" && k != "srcp" {
+				g.fail(x, "comparison of kind %q with a fresh address", k)
+			}
+			return one(map[bool]string{true: "false", false: "true"}[x.Op == token.EQL], "bool")
+		}
 		if isNil(x.X) || isNil(x.Y) {
 			o := x.X
 			if isNil(x.X) {
@@ -450,7 +598,7 @@ func (g *csGen) binary(x *ast.BinaryExpr) csVal {
 			}
 			s, k := g.val(o, "")
 			switch k {
-			case "hdrp", "err":
+			case "hdrp", "err", "srcp":
 				if x.Op == token.EQL {
 					return one(s+".isNone", "bool")
 				}
@@ -463,7 +611,7 @@ func (g *csGen) binary(x *ast.BinaryExpr) csVal {
 		}
 		l, r, k := g.operands(x)
 		switch k {
-		case "nat", "int", "big", "state", "hash", "bool":
+		case "nat", "int", "big", "state", "hash", "bool", "u8", "u32":
 		default:
 			g.fail(x, "%s on kind %q", x.Op, k)
 		}
@@ -473,16 +621,18 @@ func (g *csGen) binary(x *ast.BinaryExpr) csVal {
 		return one("("+l+" != "+r+")", "bool")
 	case token.LSS, token.LEQ, token.GTR, token.GEQ:
 		l, r, k := g.operands(x)
-		if k != "nat" && k != "int" && k != "big" {
+		if _, isInt := csIntKinds[k]; k != "nat" && k != "big" && !isInt {
 			g.fail(x, "%s on kind %q", x.Op, k)
 		}
 		return one("(decide ("+l+" "+csCmp[x.Op]+" "+r+"))", "bool")
-	case token.ADD:
+	case token.ADD, token.SUB, token.MUL:
 		l, r, k := g.operands(x)
-		if k != "nat" && k != "big" { // heights stay below 2^31 (assumption of C01): no wrap-around is modelled
-			g.fail(x, "+ on kind %q", k)
+		_, isInt := csIntKinds[k]
+		// nat / big: heights stay below 2^31 (assumption of C01), no wrap-around is modelled; and only + (Nat has no -)
+		if !isInt && !((k == "nat" || k == "big") && x.Op == token.ADD) {
+			g.fail(x, "%s on kind %q", x.Op, k)
 		}
-		return one("("+l+" + "+r+")", k)
+		return one(csWrap(k, "("+l+" "+x.Op.String()+" "+r+")"), k)
 	}
 	g.fail(x, "operator %s", x.Op)
 	return one("default", "nat")
@@ -504,13 +654,33 @@ func (g *csGen) operands(x *ast.BinaryExpr) (string, string, ckind) {
 	return l, r, lk
 }
 
+// droppedArg: an argument of a dropped kind (context.Context)
+func (g *csGen) droppedArg(a ast.Expr) bool {
+	if g.prof == nil {
+		return false
+	}
+	if id, ok := a.(*ast.Ident); ok {
+		return g.dropped[id.Name]
+	}
+	if c, ok := a.(*ast.CallExpr); ok {
+		return selText(c.Fun) == "context.Background" && len(c.Args) == 0
+	}
+	return false
+}
+
 func (g *csGen) args(c *ast.CallExpr, kinds []ckind) string {
-	if len(c.Args) != len(kinds) {
-		g.fail(c, "%d arguments, want %d", len(c.Args), len(kinds))
+	var list []ast.Expr
+	for _, a := range c.Args {
+		if !g.droppedArg(a) {
+			list = append(list, a)
+		}
+	}
+	if len(list) != len(kinds) {
+		g.fail(c, "%d arguments, want %d", len(list), len(kinds))
 		return ""
 	}
 	s := ""
-	for i, a := range c.Args {
+	for i, a := range list {
 		t, k := g.val(a, kinds[i])
 		if k != kinds[i] {
 			g.fail(a, "argument of kind %q, want %q", k, kinds[i])
@@ -520,6 +690,10 @@ func (g *csGen) args(c *ast.CallExpr, kinds []ckind) string {
 	return s
 }
 
+func (g *csGen) dropsRecv(recv string) bool {
+	return recv == "chainService" || (g.prof != nil && g.prof.dropRecv[recv])
+}
+
 // callFunc emits a call of a translated function
 func (g *csGen) callFunc(c *ast.CallExpr, f *csFunc, recv string) csVal {
 	g.translate(f)
@@ -527,7 +701,7 @@ func (g *csGen) callFunc(c *ast.CallExpr, f *csFunc, recv string) csVal {
 	s := f.lean
 	if f.recv == "chainService" {
 		s += " cfg"
-	} else if f.recv != "" {
+	} else if f.recv != "" && !g.dropsRecv(f.recv) {
 		s += " " + recv
 		kinds = kinds[1:]
 	}
@@ -535,6 +709,11 @@ func (g *csGen) callFunc(c *ast.CallExpr, f *csFunc, recv string) csVal {
 }
 
 func (g *csGen) call(c *ast.CallExpr, want ckind) csVal {
+	if g.prof != nil && g.prof.call != nil {
+		if v, ok := g.prof.call(g, c, want); ok {
+			return v
+		}
+	}
 	bad := func(msg string, a ...any) csVal {
 		g.fail(c, msg, a...)
 		return one("default", want)
@@ -577,21 +756,34 @@ func (g *csGen) call(c *ast.CallExpr, want ckind) csVal {
 		case "len":
 			if len(c.Args) == 1 {
 				s, k := g.val(c.Args[0], "")
-				if k == "chain" || k == "hashes" {
+				if _, ok := csElem[k]; ok {
 					return one(s+".length", "nat")
 				}
 			}
 			return bad("len")
 		case "make":
-			if len(c.Args) == 2 {
-				if k, ok := g.goKind(c.Args[0]); ok && k == "hashes" {
-					n, nk := g.val(c.Args[1], "nat")
-					if nk == "nat" {
+			// make(T, n) / make(T, n, cap): the capacity has no meaning in the model (it must be effect-free)
+			if len(c.Args) == 2 || (len(c.Args) == 3 && g.prof != nil && pureExpr(c.Args[2])) {
+				if k, ok := g.goKind(c.Args[0]); ok {
+					if lit, isLit := c.Args[1].(*ast.BasicLit); isLit && lit.Value == "0" && csElem[k] != "" {
+						return one("([] : "+csLeanTy[k]+")", k)
+					}
+					if n, nk := g.val(c.Args[1], "nat"); nk == "nat" && k == "hashes" {
 						return one("(List.replicate "+n+" (default : H))", "hashes")
 					}
 				}
 			}
 			return bad("make")
+		case "append":
+			if len(c.Args) == 2 && g.prof != nil {
+				xs, k := g.val(c.Args[0], want)
+				if ek, ok := csElem[k]; ok {
+					if v, vk := g.val(c.Args[1], ek); vk == ek {
+						return one("("+xs+" ++ ["+v+"])", k)
+					}
+				}
+			}
+			return bad("append")
 		}
 		if _, local := g.lookup(fn.Name); !local {
 			if v, ok := pkgFunc(g.stPkg, fn.Name); ok {
@@ -728,6 +920,30 @@ func (g *csGen) block(list []ast.Stmt, ind int) {
 	g.pop()
 }
 
+func (g *csGen) zeroOf(k ckind) (string, bool) {
+	if g.prof == nil {
+		return "", false
+	}
+	z, ok := g.prof.zero[k]
+	return z, ok
+}
+
+// rangeWritesOnlyAt: every `xs[e] = …` in the body has e = the loop index variable
+func (g *csGen) rangeWritesOnlyAt(body ast.Stmt, xs, idx string) bool {
+	ok := true
+	ast.Inspect(body, func(n ast.Node) bool {
+		if a, isA := n.(*ast.AssignStmt); isA {
+			for _, l := range a.Lhs {
+				if ie, isI := l.(*ast.IndexExpr); isI && selText(ie.X) == xs && (idx == "_" || selText(ie.Index) != idx) {
+					ok = false
+				}
+			}
+		}
+		return true
+	})
+	return ok
+}
+
 // assignsAll: does every path through s assign the variable?
 func assignsAll(s ast.Stmt, name string) bool {
 	switch x := s.(type) {
@@ -771,6 +987,9 @@ func (g *csGen) bind(ind int, lhs []string, v csVal, define bool, mut bool) {
 func (g *csGen) stmt(s ast.Stmt, next ast.Stmt, ind int) {
 	switch x := s.(type) {
 	case *ast.ExprStmt:
+		if c, ok := x.X.(*ast.CallExpr); ok && g.prof != nil && g.prof.exprStmt != nil && g.prof.exprStmt(g, s, c, ind) {
+			return
+		}
 		if c, ok := x.X.(*ast.CallExpr); ok && g.skipped(c) {
 			g.emit(ind, "-- skipped: "+g.goText(s))
 			return
@@ -800,6 +1019,10 @@ func (g *csGen) stmt(s ast.Stmt, next ast.Stmt, ind int) {
 		}
 		vs := gd.Specs[0].(*ast.ValueSpec)
 		k, ok := g.goKind(vs.Type)
+		if z, zok := g.zeroOf(k); ok && zok && len(vs.Names) == 1 && len(vs.Values) == 0 {
+			g.emit(ind, "let mut "+g.declare(vs.Names[0].Name, k)+" : "+csLeanTy[k]+" := "+z)
+			return
+		}
 		if !ok || len(vs.Names) != 1 || len(vs.Values) != 0 || next == nil || !assignsAll(next, vs.Names[0].Name) {
 			g.fail(s, "var declaration (supported: `var x T` followed by an if/else chain assigning x in every branch)")
 			return
@@ -811,6 +1034,20 @@ func (g *csGen) stmt(s ast.Stmt, next ast.Stmt, ind int) {
 	case *ast.IfStmt:
 		g.ifStmt(x, ind, "if ")
 	case *ast.ReturnStmt:
+		if len(x.Results) == 1 && len(g.results) > 1 { // return f(…) of a call with the same result list
+			v := g.expr(x.Results[0], "")
+			if !v.m || len(v.k) != len(g.results) {
+				g.fail(s, "return of %d values, want %d", len(v.k), len(g.results))
+				return
+			}
+			for i := range v.k {
+				if v.k[i] != g.results[i] {
+					g.fail(s, "result of kind %q, want %q", v.k[i], g.results[i])
+				}
+			}
+			g.emit(ind, "return (← "+v.s+")")
+			return
+		}
 		if len(x.Results) != len(g.results) {
 			g.fail(s, "return of %d values, want %d", len(x.Results), len(g.results))
 			return
@@ -834,12 +1071,8 @@ func (g *csGen) stmt(s ast.Stmt, next ast.Stmt, ind int) {
 			return
 		}
 		xs, k := g.val(x.X, "")
-		ek := ckind("hdrp")
-		switch k {
-		case "chain":
-		case "hashes":
-			ek = "hash"
-		default:
+		ek, ok := csElem[k]
+		if !ok {
 			g.fail(s, "range over kind %q", k)
 			return
 		}
@@ -855,19 +1088,67 @@ func (g *csGen) stmt(s ast.Stmt, next ast.Stmt, ind int) {
 			return id.Name
 		}
 		kn, vn := name(x.Key), name(x.Value)
-		if vn == "_" {
-			g.fail(s, "range without a value variable")
+		if vn == "_" && kn == "_" {
+			g.fail(s, "range without a variable")
+			return
+		}
+		// The Lean loop runs over the list as it is on entry. Go reads element i when iteration i starts, so the two
+		// agree as long as the body writes the ranged slice at the current index only — checked here.
+		if id, ok := x.X.(*ast.Ident); ok && !g.rangeWritesOnlyAt(x.Body, id.Name, kn) {
+			g.fail(s, "the loop body writes the ranged slice elsewhere than at the loop index")
 			return
 		}
 		g.push()
-		v := g.declare(vn, ek)
-		if kn == "_" {
-			g.emit(ind, "for "+v+" in "+xs+" do")
-		} else {
+		switch {
+		case vn == "_":
+			g.emit(ind, "for "+g.declare(kn, "nat")+" in List.range "+xs+".length do")
+		case kn == "_":
+			g.emit(ind, "for "+g.declare(vn, ek)+" in "+xs+" do")
+		default:
+			v := g.declare(vn, ek)
 			g.emit(ind, "for ("+v+", "+g.declare(kn, "nat")+") in "+xs+".zipIdx do")
 		}
+		g.loops++
 		g.block(x.Body.List, ind+1)
+		g.loops--
 		g.pop()
+	case *ast.ForStmt:
+		// `for cond {…}` / `for {…}`: at most `fuel` iterations (the loop budget of the monad); running out of fuel is
+		// the fault `outOfFuel`, so a refinement theorem also bounds the number of iterations
+		if x.Init != nil || x.Post != nil || g.prof == nil {
+			g.fail(s, "for loop with init / post statement")
+			return
+		}
+		g.emit(ind, "for _ in (← loopFuel) do")
+		if x.Cond != nil {
+			c, k := g.val(x.Cond, "bool")
+			if k != "bool" {
+				g.fail(x.Cond, "condition of kind %q", k)
+			}
+			g.emit(ind+1, "if !"+c+" then")
+			g.emit(ind+2, "break")
+		}
+		g.loops++
+		g.block(x.Body.List, ind+1)
+		g.loops--
+	case *ast.BranchStmt:
+		if g.loops == 0 || x.Label != nil || (x.Tok != token.BREAK && x.Tok != token.CONTINUE) {
+			g.fail(s, "%s", x.Tok)
+			return
+		}
+		g.emit(ind, x.Tok.String())
+	case *ast.IncDecStmt:
+		id, ok := x.X.(*ast.Ident)
+		n, nok := "", false
+		if ok {
+			n, nok = g.lookup(id.Name)
+		}
+		if _, isInt := csIntKinds[g.kinds[n]]; !nok || !isInt || g.params[n] {
+			g.fail(s, "%s (supported: on a local integer variable)", x.Tok)
+			return
+		}
+		op := map[token.Token]string{token.INC: "+", token.DEC: "-"}[x.Tok]
+		g.emit(ind, n+" := "+csWrap(g.kinds[n], "("+n+" "+op+" (1 : Int))"))
 	default:
 		g.fail(s, "statement %T", s)
 	}
@@ -903,7 +1184,26 @@ func (g *csGen) ifStmt(x *ast.IfStmt, ind int, kw string) {
 	}
 }
 
+var csOpAssign = map[token.Token]token.Token{token.ADD_ASSIGN: token.ADD, token.SUB_ASSIGN: token.SUB, token.MUL_ASSIGN: token.MUL}
+
 func (g *csGen) assign(x *ast.AssignStmt, ind int) {
+	if g.prof != nil && g.prof.assign != nil && g.prof.assign(g, x, ind) {
+		return
+	}
+	if op, ok := csOpAssign[x.Tok]; ok && len(x.Lhs) == 1 && len(x.Rhs) == 1 && g.prof != nil {
+		id, isId := x.Lhs[0].(*ast.Ident)
+		n, nok := "", false
+		if isId {
+			n, nok = g.lookup(id.Name)
+		}
+		if !nok || g.params[n] {
+			g.fail(x, "%s (supported: on a local variable)", x.Tok)
+			return
+		}
+		v := g.binary(&ast.BinaryExpr{X: id, OpPos: x.TokPos, Op: op, Y: x.Rhs[0]})
+		g.emit(ind, n+" := "+v.s)
+		return
+	}
 	if x.Tok != token.DEFINE && x.Tok != token.ASSIGN {
 		g.fail(x, "assignment operator %s", x.Tok)
 		return
@@ -940,13 +1240,14 @@ func (g *csGen) assign(x *ast.AssignStmt, ind int) {
 				return
 			}
 			xs, ok := g.lookup(id.Name)
-			if !ok || g.kinds[xs] != "hashes" || g.params[xs] {
-				g.fail(x, "indexed assignment (supported: into a local hash slice)")
+			ek, eok := csElem[g.kinds[xs]]
+			if !ok || !eok || g.params[xs] || (g.prof == nil && ek != "hash") {
+				g.fail(x, "indexed assignment (supported: into a local slice)")
 				return
 			}
 			i, ik := g.val(l.Index, "nat")
-			v, k := g.val(x.Rhs[0], "hash")
-			if ik != "nat" || k != "hash" {
+			v, k := g.val(x.Rhs[0], ek)
+			if ik != "nat" || k != ek {
 				g.fail(x, "indexed assignment of kind %q at %q", k, ik)
 			}
 			g.emit(ind, xs+" := (← setIndex "+xs+" "+i+" "+v+")")
@@ -1007,9 +1308,13 @@ func (g *csGen) translate(f *csFunc) {
 	f.state = 1
 	// save the caller's context
 	saved := *g
-	g.stPkg, g.recvCS = f.pkg, ""
+	g.stPkg, g.recvCS, g.recvName, g.loops = f.pkg, "", "", 0
+	if f.decl.Recv != nil && len(f.decl.Recv.List[0].Names) == 1 {
+		g.recvName = f.decl.Recv.List[0].Names[0].Name
+	}
 	g.scopes, g.kinds, g.used, g.params = []map[string]string{{}}, map[string]ckind{}, map[string]bool{}, map[string]bool{}
 	g.assigned, g.copied, g.results, g.out = map[string]bool{}, map[string]bool{}, f.results, nil
+	g.dropped = map[string]bool{}
 	var sig []string
 	if f.recv == "chainService" {
 		g.recvCS = f.decl.Recv.List[0].Names[0].Name
@@ -1022,11 +1327,20 @@ func (g *csGen) translate(f *csFunc) {
 		sig = append(sig, "("+n+" : "+csLeanTy[f.params[i]]+")")
 		i++
 	}
-	if f.recv != "" && f.recv != "chainService" {
+	if f.recv != "" && !g.dropsRecv(f.recv) {
 		addParam(f.decl.Recv.List[0].Names[0].Name)
 	}
 	for _, p := range f.decl.Type.Params.List {
+		if k, _ := g.goKind(p.Type); k == "drop" { // e.g. context.Context
+			for _, n := range p.Names {
+				g.dropped[n.Name] = true
+			}
+			continue
+		}
 		for _, n := range p.Names {
+			if n.Name == "_" {
+				g.fail(n, "unnamed parameter")
+			}
 			addParam(n.Name)
 		}
 	}
@@ -1038,7 +1352,7 @@ func (g *csGen) translate(f *csFunc) {
 			for _, l := range x.Lhs {
 				switch t := l.(type) {
 				case *ast.Ident:
-					if x.Tok == token.ASSIGN {
+					if x.Tok != token.DEFINE {
 						g.assigned[t.Name] = true
 					}
 				case *ast.SelectorExpr:
@@ -1052,6 +1366,8 @@ func (g *csGen) translate(f *csFunc) {
 					g.copied[id.Name] = true
 				}
 			}
+		case *ast.IncDecStmt:
+			g.assigned[selText(x.X)] = true
 		case *ast.DeclStmt:
 			if gd, ok := x.Decl.(*ast.GenDecl); ok {
 				for _, sp := range gd.Specs {
@@ -1074,8 +1390,12 @@ func (g *csGen) translate(f *csFunc) {
 	g.order = nil
 	g.block(f.decl.Body.List, 1)
 	callees := g.order
-	f.text = fmt.Sprintf("/-- %s: %s -/\ndef %s %s : RepoM H %s := do\n%s\n", f.pkg, strings.TrimSuffix(g.goText(&ast.FuncDecl{Recv: f.decl.Recv, Name: f.decl.Name, Type: f.decl.Type}), " "),
-		f.lean, strings.Join(sig, " "), rt, strings.Join(g.out, "\n"))
+	monad := "RepoM H"
+	if g.prof != nil {
+		monad = g.prof.monad
+	}
+	f.text = fmt.Sprintf("/-- %s: %s -/\ndef %s %s : %s %s := do\n%s\n", f.pkg, strings.TrimSuffix(g.goText(&ast.FuncDecl{Recv: f.decl.Recv, Name: f.decl.Name, Type: f.decl.Type}), " "),
+		f.lean, strings.Join(sig, " "), monad, rt, strings.Join(g.out, "\n"))
 	err := g.err
 	*g = saved
 	g.err = err
@@ -1099,98 +1419,87 @@ func recvTypeName(fd *ast.FuncDecl) string {
 
 var csIdent = regexp.MustCompile(`^[A-Za-z_][A-Za-z0-9_]*$`)
 
-func genChainSvc() (string, error) {
-	g := &csGen{fset: token.NewFileSet(), src: map[string][]byte{}, funcs: map[string]*csFunc{}, codes: map[string]bool{}}
-	csHdrOrder = nil
-	structs := map[string]*ast.StructType{}
-	for _, it := range []struct{ pkg, file string }{{"domains", "domains/headers.go"}, {"service", "service/chain_service.go"}} {
-		path := filepath.Join(*repo, it.file)
+// load parses the files and registers every function declaration; decl sees the other top-level declarations
+func (g *csGen) load(items [][2]string, leanName func(pkg, recv, name string) string, decl func(pkg string, d *ast.GenDecl)) error {
+	for _, it := range items {
+		pkg, file := it[0], it[1]
+		path := filepath.Join(*repo, file)
 		b, err := os.ReadFile(path)
 		if err != nil {
-			return "", err
+			return err
 		}
 		g.src[path] = b
 		f, err := parser.ParseFile(g.fset, path, b, 0)
 		if err != nil {
-			return "", err
+			return err
 		}
 		for _, d := range f.Decls {
 			switch x := d.(type) {
 			case *ast.GenDecl:
-				for _, sp := range x.Specs {
-					switch s := sp.(type) {
-					case *ast.TypeSpec:
-						if st, ok := s.Type.(*ast.StructType); ok && it.pkg == "domains" {
-							structs[s.Name.Name] = st
-						}
-					case *ast.ValueSpec:
-						if x.Tok == token.CONST && it.pkg == "service" && s.Type != nil && selText(s.Type) == "AddBlockErrorCode" {
-							for _, n := range s.Names {
-								g.codes[n.Name] = true
-							}
-						}
-					}
-				}
+				decl(pkg, x)
 			case *ast.FuncDecl:
 				if x.Body == nil {
 					continue
 				}
 				recv := recvTypeName(x)
-				lean := x.Name.Name
-				if recv != "" && recv != "chainService" && recv != "BlockHeader" {
-					lean = recv + "_" + lean
-				}
-				g.funcs[it.pkg+":"+recv+"."+x.Name.Name] = &csFunc{decl: x, pkg: it.pkg, recv: recv, lean: lean}
+				g.funcs[pkg+":"+recv+"."+x.Name.Name] = &csFunc{decl: x, pkg: pkg, recv: recv, lean: leanName(pkg, recv, x.Name.Name)}
 			}
 		}
 	}
-	// the data refinement must cover the structs exactly
-	check := func(name string, table map[string]csField, order *[]string) error {
-		st, ok := structs[name]
-		if !ok {
-			return fmt.Errorf("domains/headers.go: struct %s not found", name)
-		}
-		n := 0
-		for _, f := range st.Fields.List {
-			for _, id := range f.Names {
-				e, ok := table[id.Name]
-				k, kok := g.goKind(f.Type)
-				if id.Name == "Version" && kok && k == "nat" {
-					k = "int"
-				}
-				if !ok || !kok || k != e.k {
-					return fmt.Errorf("%s: unsupported: field %s.%s %s has no place in the row model", g.fset.Position(id.Pos()), name, id.Name, g.goText(f.Type))
-				}
-				if order != nil {
-					*order = append(*order, id.Name)
-				}
-				n++
+	return nil
+}
+
+// checkStruct: the field table of a data refinement must cover the Go struct exactly
+func (g *csGen) checkStruct(structs map[string]*ast.StructType, name string, table map[string]csField, order *[]string) error {
+	st, ok := structs[name]
+	if !ok {
+		return fmt.Errorf("struct %s not found", name)
+	}
+	n := 0
+	for _, f := range st.Fields.List {
+		for _, id := range f.Names {
+			e, ok := table[id.Name]
+			k, kok := g.goKind(f.Type)
+			if id.Name == "Version" && kok && (k == "nat" || k == "int") {
+				k = e.k
 			}
+			if !ok || !kok || k != e.k {
+				return fmt.Errorf("%s: unsupported: field %s.%s %s has no place in the row model", g.fset.Position(id.Pos()), name, id.Name, g.goText(f.Type))
+			}
+			if order != nil {
+				*order = append(*order, id.Name)
+			}
+			n++
 		}
-		if n != len(table) {
-			return fmt.Errorf("domains/headers.go: struct %s lost a field of the row model", name)
-		}
-		return nil
 	}
-	if err := check("BlockHeader", csHdrFields, &csHdrOrder); err != nil {
-		return "", err
+	if n != len(table) {
+		return fmt.Errorf("struct %s lost a field of the row model", name)
 	}
-	if err := check("BlockHeaderSource", csSrcFields, nil); err != nil {
-		return "", err
-	}
-	// signatures
+	return nil
+}
+
+// signatures computes the parameter and result kinds; functions outside the subset are dropped (a call of one is
+// reported at the call site)
+func (g *csGen) signatures() {
 	for key, f := range g.funcs {
 		ok := true
-		if f.recv != "" && f.recv != "chainService" {
+		if f.recv != "" && !g.dropsRecv(f.recv) {
 			k, kok := g.goKind(f.decl.Recv.List[0].Type)
 			ok = ok && kok
 			f.params = append(f.params, k)
 		}
 		for _, p := range f.decl.Type.Params.List {
 			k, kok := g.goKind(p.Type)
+			if kok && k == "drop" {
+				continue
+			}
 			ok = ok && kok && len(p.Names) > 0
-			for range p.Names {
-				f.params = append(f.params, k)
+			for _, n := range p.Names {
+				pk := k
+				if g.prof != nil && g.prof.paramKind != nil {
+					pk = g.prof.paramKind(n.Name, k)
+				}
+				f.params = append(f.params, pk)
 			}
 		}
 		if f.decl.Type.Results != nil {
@@ -1201,9 +1510,49 @@ func genChainSvc() (string, error) {
 			}
 		}
 		if !ok || len(f.results) == 0 || !csIdent.MatchString(f.lean) {
-			delete(g.funcs, key) // not expressible: a call of it is reported at the call site
+			delete(g.funcs, key)
 		}
 	}
+}
+
+func genChainSvc() (string, error) {
+	g := &csGen{fset: token.NewFileSet(), src: map[string][]byte{}, funcs: map[string]*csFunc{}, codes: map[string]bool{}}
+	csHdrOrder = nil
+	structs := map[string]*ast.StructType{}
+	err := g.load([][2]string{{"domains", "domains/headers.go"}, {"service", "service/chain_service.go"}},
+		func(pkg, recv, name string) string {
+			if recv != "" && recv != "chainService" && recv != "BlockHeader" {
+				return recv + "_" + name
+			}
+			return name
+		},
+		func(pkg string, x *ast.GenDecl) {
+			for _, sp := range x.Specs {
+				switch s := sp.(type) {
+				case *ast.TypeSpec:
+					if st, ok := s.Type.(*ast.StructType); ok && pkg == "domains" {
+						structs[s.Name.Name] = st
+					}
+				case *ast.ValueSpec:
+					if x.Tok == token.CONST && pkg == "service" && s.Type != nil && selText(s.Type) == "AddBlockErrorCode" {
+						for _, n := range s.Names {
+							g.codes[n.Name] = true
+						}
+					}
+				}
+			}
+		})
+	if err != nil {
+		return "", err
+	}
+	// the data refinement must cover the structs exactly
+	if err := g.checkStruct(structs, "BlockHeader", csHdrFields, &csHdrOrder); err != nil {
+		return "", fmt.Errorf("domains/headers.go: %v", err)
+	}
+	if err := g.checkStruct(structs, "BlockHeaderSource", csSrcFields, nil); err != nil {
+		return "", fmt.Errorf("domains/headers.go: %v", err)
+	}
+	g.signatures()
 	root, ok := g.funcs["service:chainService.Add"]
 	if !ok {
 		return "", fmt.Errorf("service/chain_service.go: unsupported: (*chainService).Add not found or its signature is outside the subset")
@@ -1217,12 +1566,19 @@ func genChainSvc() (string, error) {
 	b.WriteString("-- service/chain_service.go (*chainService).Add and the functions it reaches, translated by gen_chainsvc.go.\n")
 	b.WriteString("import BHS.Model.RepoM\n\nset_option linter.unusedVariables false\n\nnamespace BHS.Gen.ChainSvc\nopen BHS BHS.Chain\n")
 	b.WriteString("variable {H : Type} [DecidableEq H] [Inhabited H]\n\n")
+	b.WriteString(g.defs())
+	b.WriteString("end BHS.Gen.ChainSvc\n")
+	return b.String(), nil
+}
+
+// defs: the translated definitions in dependency order, followed by their name list
+func (g *csGen) defs() string {
+	var b strings.Builder
 	var names []string
 	for _, f := range g.order {
 		b.WriteString(f.text + "\n")
 		names = append(names, strconv.Quote(f.lean))
 	}
 	b.WriteString("/-- the translated functions, callees first -/\ndef translated : List String := [" + strings.Join(names, ", ") + "]\n\n")
-	b.WriteString("end BHS.Gen.ChainSvc\n")
-	return b.String(), nil
+	return b.String()
 }
